@@ -339,6 +339,26 @@ pub fn cases(ctx: &Ctx) -> Vec<Case> {
             }
         }
     }
+    // common picture sizes (constructor only: the resolution is a function of config and size)
+    const COMMON: [(usize, usize); 16] = [
+        (176, 144), (320, 240), (352, 288), (640, 360), (640, 480), (704, 480), (720, 480), (720, 486), (720, 576), (768, 576),
+        (1024, 576), (1280, 720), (1440, 1080), (1920, 1080), (2560, 1440), (3840, 2160),
+    ];
+    for &(w, h) in &COMMON {
+        for m in ALL_MC {
+            for subset in 0..8u8 {
+                let c = cfg(
+                    if subset & 1 != 0 { MC::Unspecified } else { m },
+                    if subset & 4 != 0 { TC::Unspecified } else { base_t },
+                    if subset & 2 != 0 { CP::Unspecified } else { base_p },
+                    8,
+                    false,
+                    (0, 0),
+                );
+                out.push(Case { op: Op::YuvNew, w, h, cfg: c, u8_storage: true, content_seed: 0 });
+            }
+        }
+    }
     out
 }
 
@@ -354,7 +374,7 @@ pub fn run(ctx: &Ctx, st: &mut Stats) -> Vec<Violation> {
         None
     });
     st.exhaustive_parts.push(format!(
-        "enumeration of {n} cases: widths {{1,2,16,1279,1280,1281}} x heights {{1,2,479..=489,575..=577,1279..=1281}} x matrices (all 15 for Yuv::new) x the 8 subsets of {{matrix, primaries, transfer}} left Unspecified x 8 constructors/conversions{}",
+        "enumeration of {n} cases: widths {{1,2,16,1279,1280,1281}} x heights {{1,2,479..=489,575..=577,1279..=1281}} x matrices (all 15 for Yuv::new) x the 8 subsets of {{matrix, primaries, transfer}} left Unspecified x 8 constructors/conversions{}, plus 16 common picture sizes (176x144 .. 3840x2160) x 15 matrices x 8 subsets through Yuv::new",
         if ctx.quick() { " (conversions of frames above 40,000 pixels are left to the thorough tier)" } else { "" }
     ));
     out
